@@ -6,6 +6,12 @@ CONSTANTS NPart,      \* number of particles
           MaxLinks,   \* bound on the number of linked pairs
           Family      \* "all" | "skeleton" | "skeleton2" | "file" | "appendixC6" | "none" (only that one is evaluated)
 
+\* the algorithm as it is in the tree (after 1437bd7 and 00e911b) and the earlier designs, kept as negative controls
+Current == {"tailcut-order", "fresh-head-id"}
+NoRepair == {}
+OnlyTailcutOrder == {"tailcut-order"}
+OnlyFreshHeadId == {"fresh-head-id"}
+
 Pairs(n) == { pq \in (1..n) \X (1..n) : pq[1] # pq[2] }
 
 \* all strict distance orders of all link sets with at most k pairs: sequences over P without repetition
